@@ -979,3 +979,5 @@ mutant('C11', 'continuation-guard-by-identity', SV, "        if self.__powertrai
        "        if self.__powertrain.time:\n            if len(self.__powertrain.time) is not len(self.__powertrain.elements[-1].time_variables['angular position']):\n                raise ValueError('not aligned')\n            initial_time = self.__powertrain.time[-1]", 'C11.count')
 mutant('C01', 'reset-shares-one-list', PT, "            for variable in element.time_variables.keys():\n                element.time_variables[variable] = []\n",
        "            element.time_variables.update(dict.fromkeys(element.time_variables, []))\n", 'C01.recorded.reset')
+mutant('C06', 'interval-times-speed-guarded-on-result', UN, "    def __mul__(self, other: float | int) -> TimeInterval:\n        super().__mul__(other=other)\n\n        if other <= 0:",
+       "    def __mul__(self, other):\n        result = super().__mul__(other=other)\n        if not isinstance(result, Time):\n            if result.value <= 0:\n                raise ValueError('negative')\n            return result\n\n        if other <= 0:", 'C06.kind')
